@@ -470,25 +470,28 @@ func (r *runner) msg(step int, meta string) api.CommitMessage {
 // ---------------------------------------------------------------- state inspection
 
 type objState struct {
-	id     ksuid.KSUID
-	sig    string // everything but the id
-	count  uint64
-	min    string
-	max    string
-	vector bool
-	path   string // file path of the sequence object
-	minVal zed.Value
-	seq    string // values in stored order
-	layout string // sig without the vector flag
+	id                    ksuid.KSUID
+	sig                   string // everything but the id
+	count                 uint64
+	min                   string
+	max                   string
+	vector                bool
+	path                  string // file path of the sequence object
+	minVal                zed.Value
+	seq                   string // values in stored order
+	layout                string // sig without the vector flag
+	layoutPre, layoutPost string
+	twin                  bool // another live object of the branch has the same layout and vector flag
 }
 
 type branchState struct {
 	name      string
-	chain     []ksuid.KSUID // tip first
-	log       []string      // per commit: author|message|meta|set of action kinds
-	logCounts []string      // per commit: all actions (layout dependent)
-	objects   []objState    // sorted by layout signature
-	content   string        // digest of the multiset of all values of the branch
+	chain     []ksuid.KSUID         // tip first
+	log       []string              // per commit: author|message|meta|set of action kinds
+	logCounts []string              // per commit: all actions (layout dependent)
+	objects   []objState            // sorted by layout signature
+	content   string                // digest of the multiset of all values of the branch
+	adds      map[ksuid.KSUID][]int // object id -> positions (from the root) of this chain's commits that add it
 	err       string
 }
 
@@ -542,10 +545,45 @@ func (r *runner) inspect(si int) (*lakeState, error) {
 			ps.branches = append(ps.branches, bs)
 		}
 		sort.Slice(ps.branches, func(i, j int) bool { return ps.branches[i].name < ps.branches[j].name })
+		finishPool(&ps)
 		st.pools = append(st.pools, ps)
 	}
 	sort.Slice(st.pools, func(i, j int) bool { return st.pools[i].name < st.pools[j].name })
 	return st, nil
+}
+
+// finishPool gives every live object its logical identity and orders the objects of each branch canonically.
+// Object ids are random per lake, so "the same object" on the two lakes is defined by history: by every commit, of
+// every branch of the pool, that adds the object (branch name + position from the root).  Two loads of the same
+// batch, or two objects deleted by one commit and restored by one revert, are thereby told apart; objects that
+// remain indistinguishable (same content, same history, same vector flag) are marked as twins and never picked.
+func finishPool(ps *poolState) {
+	for bi := range ps.branches {
+		bs := &ps.branches[bi]
+		for oi := range bs.objects {
+			ob := &bs.objects[oi]
+			var hist []string
+			for _, other := range ps.branches {
+				if pos := other.adds[ob.id]; len(pos) > 0 {
+					hist = append(hist, fmt.Sprintf("%s%v", other.name, pos))
+				}
+			}
+			ob.layout = fmt.Sprintf("%s born=%s %s", ob.layoutPre, strings.Join(hist, ";"), ob.layoutPost)
+			ob.sig = fmt.Sprintf("vector=%v %s", ob.vector, ob.layout)
+		}
+		sort.SliceStable(bs.objects, func(i, j int) bool {
+			a, b := bs.objects[i], bs.objects[j]
+			if a.layout != b.layout {
+				return a.layout < b.layout
+			}
+			return !a.vector && b.vector
+		})
+		for oi := 1; oi < len(bs.objects); oi++ {
+			if bs.objects[oi].layout == bs.objects[oi-1].layout && bs.objects[oi].vector == bs.objects[oi-1].vector {
+				bs.objects[oi].twin, bs.objects[oi-1].twin = true, true
+			}
+		}
+	}
 }
 
 func (r *runner) inspectBranch(si int, engine storage.Engine, pool *lake.Pool, tip ksuid.KSUID, bs *branchState) error {
@@ -675,18 +713,22 @@ func (r *runner) inspectBranch(si int, engine storage.Engine, pool *lake.Pool, t
 		allKeys = append(allKeys, keys...)
 		// Objects with identical content are told apart by the commit that added them (position in the chain),
 		// so that "the i-th object" denotes the same object of the same load on both lakes.
-		born := -1
-		for _, c := range addedBy[o.ID] {
-			if n, ok := fromRoot[c]; ok && n > born {
-				born = n
-			}
-		}
-		// (the byte size is not part of the signature: with equal values it can only differ through tie order)
-		os.layout = fmt.Sprintf("count=%d min=%s max=%s born=%d %s values=%x", o.Count, os.min, os.max, born, unreadable, strings.Join(keys, "\xff"))
-		os.sig = fmt.Sprintf("vector=%v %s", os.vector, os.layout)
+		// (the logical identity "born=..." is filled in by finishPool once all branches of the pool are known;
+		// the byte size is not part of the signature: with equal values it can only differ through tie order)
+		os.layoutPre = fmt.Sprintf("count=%d min=%s max=%s", o.Count, os.min, os.max)
+		os.layoutPost = fmt.Sprintf("%s values=%x", unreadable, strings.Join(keys, "\xff"))
 		bs.objects = append(bs.objects, os)
 	}
-	sort.SliceStable(bs.objects, func(i, j int) bool { return bs.objects[i].layout < bs.objects[j].layout })
+	// every commit of this chain that has an Add action for an object, as position from the root
+	bs.adds = map[ksuid.KSUID][]int{}
+	for id, cs := range addedBy {
+		for _, c := range cs {
+			if n, ok := fromRoot[c]; ok {
+				bs.adds[id] = append(bs.adds[id], n)
+			}
+		}
+		sort.Ints(bs.adds[id])
+	}
 	sort.Strings(allKeys)
 	h := sha1.Sum([]byte(strings.Join(allKeys, "\xff")))
 	bs.content = fmt.Sprintf("%d values %x", len(allKeys), h[:8])
@@ -1427,6 +1469,11 @@ func (r *runner) pickObjects(st *lakeState, p *mpool, branch string, pick []int)
 			continue
 		}
 		seen[i] = true
+		if bs.objects[i].twin {
+			// which of two logically indistinguishable objects an ordinal denotes is arbitrary on each lake
+			r.o.Label("pick-skipped:indistinguishable-twins")
+			return nil, nil
+		}
 		ids = append(ids, bs.objects[i].id)
 		objs = append(objs, bs.objects[i])
 	}
@@ -1735,6 +1782,16 @@ func (r *runner) step(step int, op Op, before [2]*lakeState) *vt.Failure {
 				return nil
 			}
 			at[si] = bs.chain[op.At%len(bs.chain)]
+		}
+		if a, b := before[0].branch(p.name, branch), before[1].branch(p.name, branch); len(a.chain) != len(b.chain) {
+			// The two lakes hold the same data but reached it by a different number of commits (an earlier step
+			// committed on one side only, e.g. the open load-warnings finding, or a no-op commit): position At
+			// names different logical commits on the two sides, so their reverts are not comparable.
+			if os.Getenv("C19_DEBUG_CHAIN") != "" {
+				fmt.Fprintf(os.Stderr, "C19 revert: chain lengths differ: direct %d, served %d\n", len(a.chain), len(b.chain))
+			}
+			r.o.Label("revert-skipped:chain-lengths-differ")
+			return nil
 		}
 		ok, f := r.both(step, "revert", func(si int, l lakeapi.Interface) error {
 			_, err := l.Revert(ctx, p.id[si], branch, at[si], r.msg(step, ""))
@@ -2176,6 +2233,19 @@ func runCase(c Case) *vt.Outcome {
 			o.Label("state:layout-differs:" + op.Kind)
 			r.debugf("step %d: layout differs: %s", i, sd.layout)
 			break
+		}
+		if debug {
+			for si := 0; si < 2; si++ {
+				for _, ps := range after[si].pools {
+					for _, bs := range ps.branches {
+						var ss []string
+						for _, ob := range bs.objects {
+							ss = append(ss, fmt.Sprintf("{%s vec=%v id=%s}", short(ob.layout), ob.vector, ob.id.String()[22:]))
+						}
+						r.debugf("   side %d %s@%s chain=%d: %s", si, ps.name, bs.name, len(bs.chain), strings.Join(ss, " "))
+					}
+				}
+			}
 		}
 		before = after
 	}
